@@ -1656,6 +1656,8 @@ class Food(UnitConversions):
             # Validate the list
             self.validate_if_list()
 
+            assert self.units == other.units
+
             # Check if fat is included in the conversions
             if self.conversions.include_fat:
                 # Check if any of the fat values are less than or equal to the other food's fat values
